@@ -505,7 +505,7 @@ def random_history(dendropy, case, want_api):
     lens = case["lengths"]
     shape = build.random_parents(rng, nl, p_poly=0.25, p_unif=0.08 if case.get("unif") else 0.0)
     nested = build.assign(shape, rng, list(range(nl)), lengths=lens)
-    nested[2] = None if rng.random() < 0.8 else 1
+    nested[2] = 1 if (case.get("rootlen") or rng.random() < 0.2) else None      # length of the seed node's own edge
     w = World(dendropy, nested, case["rooted"], nl, want_api=want_api, encoded=case.get("encoded", False),
               duplabels=case.get("duplabels", False), sexp=case.get("sexp", 0))
     fam = case["fam"]
@@ -651,10 +651,15 @@ def random_cases(ctx, prop, n, nops, salt):
     pats = [(0, 1, 2), (1,), (1, 2, 3), (None,), (0, 1), (1, 1, 2, None), (0.5, 1, 1.5, 2)]
     for i in range(n):
         pat = pats[i % len(pats)]
-        if prop == "C07" and None in pat and i % 2:
-            pat = (0, 1, 1, 2)
+        rootlen = False
+        if prop == "C07" and None in pat:
+            if i % 2:
+                pat = (0, 1, 1, 2)
+            else:
+                pat, rootlen = (None, 1, 2, 1), True      # mixed: some branches without length + a seed edge length
         out.append({"kind": "random", "prop": prop, "seed": rng.randrange(1 << 30), "nleaves": rng.randint(5, 12),
-                    "lengths": list(pat), "rooted": i % 2, "nops": nops, "unif": (i % 3 == 0), "encoded": (i % 4 == 1),
+                    "lengths": list(pat), "rooted": (i // 2) % 2 if rootlen else i % 2, "rootlen": rootlen, "nops": nops, "unif": (i % 3 == 0),
+                    "encoded": (i % 4 == 1),
                     "duplabels": (prop == "C03" and i % 3 == 2), "sexp": (SCALE_EXPONENTS[i % 5] if prop == "C07" else 0),
                     "fam": REORIENT_FAM if prop == "C07" else ALL_FAM})
     return out
